@@ -72,23 +72,16 @@ type srcPlan struct {
 
 func blanks(rng *rand.Rand) string { return []string{"", "", " ", "\t", "  ", " \t "}[rng.Intn(6)] }
 
-func fillerText(rng *rand.Rand, n int, crs bool) string {
+func fillerText(rng *rand.Rand, n int) string {
 	if n <= 0 {
 		return ""
 	}
 	words := []string{"full:a.com ", "domain:com ", "keyword:a ", "regexp:. ", "x", "note, ", "a.b.c "}
-	if crs {
-		words = append(words, "\rdomain:com ", "\rfull:a.com 1 ", "\r")
-	}
 	var b strings.Builder
 	for b.Len() < n {
 		b.WriteString(words[rng.Intn(len(words))])
 	}
-	s := b.String()[:n]
-	if !crs {
-		return s
-	}
-	return s
+	return b.String()[:n]
 }
 
 // genPlan lays out the lines of a source for rs; it may append long rules to rs.
@@ -188,6 +181,9 @@ func genPlan(rng *rand.Rand, rs *ruleSet, st *stats) *srcPlan {
 				idx = append(idx, i)
 			}
 		}
+		if len(idx) == 0 {
+			return -1
+		}
 		return idx[rng.Intn(len(idx))]
 	}
 	// makeLong makes one line of about n bytes.
@@ -197,6 +193,13 @@ func genPlan(rng *rand.Rand, rs *ruleSet, st *stats) *srcPlan {
 		if k == "long-regexp" && (!allowBigRule || n > 70000) {
 			k = "comment"
 		}
+		ri := -1
+		switch k {
+		case "trailing-comment", "trailing-blanks", "leading-blanks", "inner-blanks":
+			if ri = ruleLine(); ri < 0 {
+				k = "comment"
+			}
+		}
 		st.add("src_long_line_kind:"+k, 1)
 		p.Long = append(p.Long, fmt.Sprintf("%s~%d", k, n))
 		switch k {
@@ -205,7 +208,7 @@ func genPlan(rng *rand.Rand, rs *ruleSet, st *stats) *srcPlan {
 		case "blank-only":
 			insert(position(), planLine{Kind: "blank", Rule: -1, Pad: k, PadTo: n, padByte: " \t"[rng.Intn(2)]})
 		case "trailing-comment", "trailing-blanks", "leading-blanks", "inner-blanks":
-			i := ruleLine()
+			i := ri
 			p.Lines[i].Pad, p.Lines[i].PadTo, p.Lines[i].padByte = k, n, " \t"[rng.Intn(2)]
 			if k == "trailing-comment" && !strings.Contains(p.Lines[i].trail, "#") {
 				p.Lines[i].trail = " #"
@@ -246,18 +249,28 @@ func genPlan(rng *rand.Rand, rs *ruleSet, st *stats) *srcPlan {
 		makeLong(pick(midClasses), false)
 		makeLong(pick(append(append([]int{}, edgeClasses...), longClasses...)), false)
 	case "thousands-of-short-lines":
-		for i, n := 0, 2500+rng.Intn(3000); i < n; i++ {
+		n := 2500 + rng.Intn(3000)
+		merged := make([]planLine, 0, n+len(p.Lines))
+		rest := p.Lines
+		for i := 0; i < n || len(rest) > 0; {
+			if len(rest) > 0 && (i >= n || rng.Intn(n+len(p.Lines)) < len(p.Lines)) {
+				merged = append(merged, rest[0])
+				rest = rest[1:]
+				continue
+			}
+			i++
 			var l planLine
 			switch rng.Intn(3) {
 			case 0:
 				l = planLine{Kind: "blank", Rule: -1, text: blanks(rng)}
 			case 1:
-				l = planLine{Kind: "comment", Rule: -1, text: "# " + fillerText(rng, 5+rng.Intn(60), false)}
+				l = planLine{Kind: "comment", Rule: -1, text: "# " + fillerText(rng, 5+rng.Intn(60))}
 			default:
 				l = planLine{Kind: "decoy", Rule: -1, text: "#" + allTypes[rng.Intn(4)] + ":" + randName(rng, 1, 3) + " 9999"}
 			}
-			insert(rng.Intn(len(p.Lines)+1), l)
+			merged = append(merged, l)
 		}
+		p.Lines = merged
 	}
 	for i := range p.Lines {
 		p.Lines[i].Term = term()
@@ -300,7 +313,7 @@ func (p *srcPlan) render(rng *rand.Rand, rs *ruleSet, def string, value func(rul
 					s = l.lead + pat + mid + pad(base) + val + l.trail
 				}
 			case "trailing-comment":
-				s = l.lead + pat + mid + val + l.trail + fillerText(rng, l.PadTo-base, false)
+				s = l.lead + pat + mid + val + l.trail + fillerText(rng, l.PadTo-base)
 			default:
 				s = l.lead + pat + mid + val + l.trail
 			}
@@ -308,7 +321,7 @@ func (p *srcPlan) render(rng *rand.Rand, rs *ruleSet, def string, value func(rul
 			s = l.text
 			switch l.Pad {
 			case "comment":
-				s += fillerText(rng, l.PadTo-len(s), false)
+				s += fillerText(rng, l.PadTo-len(s))
 			case "blank-only":
 				s += strings.Repeat(string(l.padByte), max(0, l.PadTo-len(s)))
 			}
